@@ -181,7 +181,7 @@ func (c *c06ctx) uncompressed(xb []byte) {
 func init() {
 	core.Register(&core.Check{
 		ID: "C06", Level: "exploration",
-		Rule: "compressed form through SetBytes and ReadPoint: ALL x in [0,2^18) (2^22 thorough), all x in [p-2^12,p+2^12] and [2^256-2^12,2^256), the images x+p, x+2p and p-x of accepted x, the 16+16 pinned vectors, every length 0..70 around valid encodings; uncompressed untrusted form: every accepted x (and its x+p alias) combined with y in {largest root, smaller root, root+p, y+1, 0, 1, p, p-1}; a case = (decoder, byte string); non-trivial = accepted by the reference, or an alias/boundary/wrong-length/wrong-y variant of an accepted encoding",
+		Rule: "compressed form through SetBytes and ReadPoint: ALL x in [0,2^18) (2^22 thorough), all x in [p-2^12,p+2^12] and [2^256-2^12,2^256), the images x+p, x+2p and p-x of accepted x, the 16+16 pinned vectors, every length 0..70 around valid encodings; a quarter of the inputs first go through the unchecked decoders (history independence); uncompressed untrusted form: every accepted x (and its x+p alias) combined with y in {largest root, smaller root, root+p, y+1, 0, 1, p, p-1}; a case = (decoder, byte string); non-trivial = accepted by the reference, or an alias/boundary/wrong-length/wrong-y variant of an accepted encoding",
 		Assume: []string{"reference predicate: math/big (x<p, Jacobi of (ax^2-1)/(dx^2-1) >= 0, Jacobi(1-ax^2)=+1, y = largest root), itself bound to 16 good and 16 bad-subgroup pinned vectors",
 			"order | r verified with the reference scalar multiplication on a subset of the accepted inputs (40 per unit)"},
 		Units: c06Units,
